@@ -83,13 +83,15 @@ RECURSIVE RH(_)
 RH(b) == IF b = 0 THEN 0 ELSE RH(Par(b)) + 1
 RECURSIVE PathTo(_)
 PathTo(b) == IF b = 0 THEN <<>> ELSE Append(PathTo(Par(b)), b)
-Eldest(b) == CHOOSE s \in Free : Par(s) = Par(b) /\ \A t \in Free : Par(t) = Par(b) => s <= t
-Txs(b) == {<<b, 0>>, <<Eldest(b), 1>>}
-TxAll == UNION {Txs(b) : b \in Free}
+EldestT(t, b) == CHOOSE s \in 1..t.n : t.parent[s] = t.parent[b] /\ \A u \in 1..t.n : t.parent[u] = t.parent[b] => s <= u
+TxsT(t, b) == {<<b, 0>>, <<EldestT(t, b), 1>>}
+TxAllT(t) == UNION {TxsT(t, b) : b \in 1..t.n}
+Txs(b) == TxsT(tree, b)
+TxAll == TxAllT(tree)
 MaxH == tree.n
 
 Deepest == CHOOSE b \in Free : \A c \in Free : RH(c) <= RH(b)
-Unique == \A c \in Free \ {Deepest} : RH(c) < RH(Deepest)
+Unique == tree.n > 0 /\ \A c \in Free \ {Deepest} : RH(c) < RH(Deepest)
 Final == PathTo(Deepest)
 
 Last(s) == s[Len(s)]
@@ -100,8 +102,9 @@ SeqSet(s) == {s[i] : i \in 1..Len(s)}
 -----------------------------------------------------------------------------
 \* state
 
-D0 == [roots |-> {}, hdr |-> [b \in Free |-> "none"], td |-> {},
-       h2h |-> [i \in 1..MaxH |-> 0], last |-> 0, txi |-> [t \in TxAll |-> 0]]
+D0T(t) == [roots |-> {}, hdr |-> [b \in 1..t.n |-> "none"], td |-> {},
+           h2h |-> [i \in 1..t.n |-> 0], last |-> 0, txi |-> [x \in TxAllT(t) |-> 0]]
+D0 == D0T(tree)
 V0 == [index |-> {}, best |-> <<>>, orph |-> <<>>]
 J0 == [phase |-> "idle", x |-> 0, det |-> <<>>, att |-> <<>>, stage |-> "exec", queue |-> <<>>,
        err |-> "ok", half |-> FALSE]
@@ -134,16 +137,19 @@ Fail(j, e) == [J0 EXCEPT !.err = e]
 -----------------------------------------------------------------------------
 \* labels
 
-Reply == [err |-> job'.err, tip |-> IF v'.best = <<>> THEN 0 ELSE Last(v'.best)]
+\* every step is labelled with the durable write it performed (w: <<>> or <<db, origin>>); the step that ends
+\* a delivery also carries what ProcAddBlockMsg answered and the tip afterwards, and the one that ends the
+\* last delivery the expected final observation: the chain of the uninterrupted run, no inconsistency
+TipNext == IF v'.best = <<>> THEN 0 ELSE Last(v'.best)
 Done == job.phase = "idle" /\ delivered = Free
 DoneNext == job'.phase = "idle" /\ delivered' = Free
 Emit(r) == act' = IF ~EmitOn THEN ""
                   ELSE IF job'.phase = "idle"
                        THEN IF DoneNext
-                            THEN ToJson(r @@ [fin |-> TRUE, ret |-> Reply, w |-> wr',
-                                              chk |-> [chain |-> v'.best, problems |-> <<>>]])
-                            ELSE ToJson(r @@ [fin |-> TRUE, ret |-> Reply, w |-> wr'])
-                       ELSE ToJson(r @@ [fin |-> FALSE, w |-> wr'])
+                            THEN ToJson(r @@ [ret |-> [w |-> wr', fin |-> TRUE, err |-> job'.err, tip |-> TipNext],
+                                              chk |-> [chain |-> v'.best, problems |-> <<>>, extra |-> <<>>]])
+                            ELSE ToJson(r @@ [ret |-> [w |-> wr', fin |-> TRUE, err |-> job'.err, tip |-> TipNext]])
+                       ELSE ToJson(r @@ [ret |-> [w |-> wr', fin |-> FALSE]])
 
 Strict == Order # <<>>
 
@@ -281,7 +287,7 @@ Crash ==
   /\ v' = V0 /\ job' = [J0 EXCEPT !.phase = "down"] /\ ncrash' = ncrash + 1
   /\ wr' = NoWrite
   /\ UNCHANGED <<tree, d, reached, target, delivered, plan>>
-  /\ act' = IF EmitOn THEN ToJson([op |-> "Crash"]) ELSE ""
+  /\ act' = IF EmitOn THEN ToJson([op |-> "Crash", ret |-> "ok"]) ELSE ""
 
 \* NewBlockStore + InitIndexAndBestView: every height up to the stored last height needs a header
 Loadable == \A i \in 1..d.last : d.h2h[i] # 0 /\ d.hdr[d.h2h[i]] # "none"
